@@ -124,7 +124,22 @@ func (b *Bounds) Points() func() Point {
 // Polygons returns a rectangle polygon
 // to fulfill the Polygonal interface.
 func (b *Bounds) Polygons() []Polygon {
-	return []Polygon{{{b.Min, Point{b.Max.X, b.Min.Y}, b.Max, Point{b.Min.X, b.Max.Y}}}}
+	if b.Empty() {
+		// An empty box (what Bounds() of a geometry without vertices
+		// returns) covers nothing: not the ring through its inverted,
+		// infinite corners.
+		return nil
+	}
+	return []Polygon{b.polygon()}
+}
+
+// polygon returns the receiver as a polygon: one rectangular ring, or no
+// ring at all if the box is empty.
+func (b *Bounds) polygon() Polygon {
+	if b.Empty() {
+		return Polygon{}
+	}
+	return Polygon{{b.Min, Point{b.Max.X, b.Min.Y}, b.Max, Point{b.Min.X, b.Max.Y}}}
 }
 
 // Intersection returns the Intersection of the receiver with p.
@@ -154,25 +169,25 @@ func (b *Bounds) Intersection(p Polygonal) Polygonal {
 	if !b.Overlaps(bp) {
 		return nil
 	}
-	return b.Polygons()[0].Intersection(p)
+	return b.polygon().Intersection(p)
 }
 
 // Union returns the combination of the receiver and p.
 func (b *Bounds) Union(p Polygonal) Polygonal {
 	// TODO: optimize
-	return b.Polygons()[0].Union(p)
+	return b.polygon().Union(p)
 }
 
 // XOr returns the area(s) occupied by either the receiver or p but not both.
 func (b *Bounds) XOr(p Polygonal) Polygonal {
 	// TODO: optimize
-	return b.Polygons()[0].XOr(p)
+	return b.polygon().XOr(p)
 }
 
 // Difference subtracts p from b.
 func (b *Bounds) Difference(p Polygonal) Polygonal {
 	// TODO: optimize
-	return b.Polygons()[0].Difference(p)
+	return b.polygon().Difference(p)
 }
 
 // Area returns the area of the reciever.
